@@ -139,6 +139,18 @@ Definition socketpair_fds (local_cloexec peer_cloexec : bool) (a b : N) : list r
 Definition launched_fds (others : list rfd) (a b : N) : list N :=
   exec_fds 1 (others ++ socketpair_fds true true a b)%list.
 
+(* Which file is executed.  discoverPlugins reads the directory `dir` as the runtime sees it (a relative path is
+   resolved against the runtime's working directory); newLaunchedPlugin executes filepath.Join(dir, name) and leaves
+   cmd.Dir empty, so the child — and the resolution of a relative executable path — use the runtime's working
+   directory too.  resolve cwd p: how the kernel reads path p in a process whose working directory is cwd *)
+Definition is_absolute (p : string) : bool := match p with String "/" _ => true | _ => false end.
+Definition resolve (cwd p : string) : string := if is_absolute p then p else cwd ++ "/" ++ p.
+Definition exec_path (dir name : string) : string := dir ++ "/" ++ name.
+(* file looked at by discovery, file started by exec with cmd.Dir = cmd_dir ("" = unset) *)
+Definition discovered_file (cwd dir name : string) : string := resolve cwd (exec_path dir name).
+Definition executed_file (cwd cmd_dir dir name : string) : string :=
+  resolve (if String.eqb cmd_dir "" then cwd else resolve cwd cmd_dir) (exec_path dir name).
+
 (* ------------------------------------------------------------------ the stub's side (pkg/stub/stub.go) *)
 
 (* os.Getenv over an environment block: first entry with this key; entries without '=' are skipped *)
